@@ -178,7 +178,10 @@ func (m *Monitor) Feed(e Event) {
 
 var rng *rand.Rand
 
-var prefixes = []string{"x", "ret", "ok", "v", "http"}
+var prefixes = []string{"x", "ret", "ok", "v", "http", "订单", "größe", "T"}
+
+// names of types declared in the destination package itself (written without a qualifier in an in-package file): identifiers in any script
+var localTypeNames = []string{"T", "订单", "größe", "Ärger", "T1"}
 var pkgNames = []string{"model", "http", "http0", "sync", "model0", "p"}
 
 func genName() string {
@@ -249,7 +252,7 @@ type methodSpec struct {
 func genMethod() methodSpec {
 	k := rng.Intn(5)
 	m := methodSpec{}
-	pool := []string{"", "_", "x", "x1", "ret", "ok", "http", "model", "model0", "sync", "v", "p", "http0", "x10"}
+	pool := []string{"", "_", "x", "x1", "ret", "ok", "http", "model", "model0", "sync", "v", "p", "http0", "x10", "订单", "größe", "T", "Ärger"}
 	for i := 0; i < k; i++ {
 		m.names = append(m.names, pool[rng.Intn(len(pool))])
 		if rng.Intn(3) == 0 {
@@ -306,14 +309,22 @@ func (w *world) newScope(m methodSpec) (*template.MethodScope, string) {
 	id := fmt.Sprintf("%s/s%d", w.fileID, w.scopeN)
 	ctx := context.Background()
 	var vars []*template.Var
+	var bareTypes []string // in-package type names that stand unqualified in this signature: visible names of the scope
 	for i, n := range m.names {
 		var typ types.Type = types.Typ[types.Int]
 		if m.typs[i] >= 0 {
 			ps := paths[m.typs[i]]
 			pkg := w.tpkg(ps)
-			typ = types.NewNamed(types.NewTypeName(token.NoPos, pkg, "T", nil), types.NewStruct(nil, nil), nil)
+			tn := "T"
+			bare := w.inPkg && ps.path == w.dst
+			if bare {
+				tn = localTypeNames[rng.Intn(len(localTypeNames))]
+			}
+			typ = types.NewNamed(types.NewTypeName(token.NoPos, pkg, tn, nil), types.NewStruct(nil, nil), nil)
 			if rng.Intn(2) == 0 {
 				typ = types.NewSlice(typ)
+			} else if bare {
+				bareTypes = append(bareTypes, tn)
 			}
 		}
 		v, err := sc.AddVar(ctx, types.NewVar(token.NoPos, nil, n, typ), "", nil)
@@ -330,11 +341,20 @@ func (w *world) newScope(m methodSpec) (*template.MethodScope, string) {
 	for _, imp := range w.reg.Imports() {
 		init = append(init, imp.Qualifier())
 	}
+	for _, tn := range bareTypes {
+		if !sc.NameExists(tn) && w.mon != nil {
+			w.mon.viol("scope %s: the in-package type name %q stands unqualified in the signature but NameExists reports it as free", id, tn)
+		}
+		init = append(init, tn)
+	}
 	w.feed(Event{Scope: id, Op: "init", Names: init})
 	// the construction itself must be collision free: parameter names pairwise distinct and distinct from qualifiers
 	seen := map[string]bool{}
 	for _, imp := range w.reg.Imports() {
 		seen[imp.Qualifier()] = true
+	}
+	for _, tn := range bareTypes {
+		seen[tn] = true
 	}
 	for _, v := range vars {
 		if seen[v.Name] && w.mon != nil {
